@@ -132,19 +132,27 @@ class FakePool(multiprocessing.pool.Pool):
 
 
 def completion_orders(n, full_upto):
+    """every permutation up to ``full_upto`` futures; beyond: FIFO, reversal,
+    a rotation and the orders within one / two adjacent transpositions of
+    FIFO (all of them up to 12 futures, an even spread of 40 beyond)"""
     if n <= full_upto:
         return [list(p) for p in itertools.permutations(range(n))]
     base = list(range(n))
-    out = {tuple(base), tuple(base[::-1])}
+    out = {tuple(base), tuple(base[::-1]), tuple(base[n // 2:] + base[:n // 2])}
     for i in range(n - 1):
         a = base[:]
         a[i], a[i + 1] = a[i + 1], a[i]
         out.add(tuple(a))
-        for j in range(n - 1):
-            b = a[:]
-            b[j], b[j + 1] = b[j + 1], b[j]
-            out.add(tuple(b))
-    return [list(o) for o in sorted(out)]
+        if n <= 12:
+            for j in range(n - 1):
+                b = a[:]
+                b[j], b[j + 1] = b[j + 1], b[j]
+                out.add(tuple(b))
+    out = sorted(out)
+    if len(out) > 40:
+        step = len(out) / 40.0
+        out = [out[int(k * step)] for k in range(40)] + [tuple(base[::-1])]
+    return [list(o) for o in out]
 
 
 # --------------------------------------------------------------------------- #
